@@ -34,6 +34,33 @@ CHECKS = {
     'C11': dict(cat='model_checking', tech='TLA+ Process.tla / configuration sections (CfgLocal, CfgDoesNotLeak, ChildKeepsBirthCfg) checked by TLC; TLC-simulated histories and a catalogue of rendered TOML configurations replayed on the real registries, validated by Trace_Process',
                 text='Every configuration shape (absent, default-valued, each option flipped, ill-typed, scalar/array where a table is expected, unknown key, unrelated sections, the generated example) is rendered for every configurable lint and applied in varying orders to the global registry, copies and children; every verdict must be a function of <<object, lint, what the configuration says to that lint>>, unapplicable sections must give exactly that lint a configuration-error fatal, nothing may escape.',
                 note='what a configuration says to a lint is known by construction of the TOML; go-toml trusted', ref='5 C11'),
+    'C02': dict(cat='exploration', tech='TLA+ Plan_Mutate.tla enumerates the mutation space (node classes x operators) with TLC; every mutant the real parser accepts is linted by the whole registry and the recorded run is validated by Trace_NoPanic (no Recover / Escape step exists in the specification)',
+                text='A specification-guided input search: TLC enumerates the abstract mutation plan, the forge applies it at every TLV node of carrier objects chosen so that every lint has a carrier on which it judges, and the trace specification rejects any recovered or escaping panic and any fatal that is neither a configuration error nor an explicit decision of the body. Exploration, not proof: the spec contributes the prohibition and the enumerated space.',
+                note='"parseable" is decided by the real parsers under recover; parser panics are counted and skipped', ref='5 C02'),
+    'C09': dict(cat='model_checking', tech='TLA+ Process.tla memo machine with the signature bits absent from the key; signature-only variants of every non-self-issued corpus certificate validated by Trace_Process',
+                text='The memo key contains TBS, algorithms and signature length and no signature bits, so any verdict (status or details) that moves when only the signature BIT STRING changes is a rejected event; variants are zero, ones, single-bit flips, ECDSA-shaped and seeded random values of the same length; the harness asserts per variant that TBS, algorithm identifiers and length are unchanged and SelfSigned is false.',
+                note='model-checking part is light (the design model has no signature bits); weight is on the validated traces', ref='5 C09'),
+    'C14': dict(cat='model_checking', tech='TLA+ Codec.tla (labels injective, decode defined exactly on the labels, round trip) checked by TLC; every status value, a pool of non-labels, every sweep ResultSet encode->decode->encode and the registry listing validated by Trace_Codec',
+                text='The codec is a finite function and is model-checked completely; the real String/MarshalJSON/UnmarshalJSON, ResultSet round trips (incl. invalid UTF-8 details) and WriteJSON listing lines are recorded and validated against it.',
+                note='encoding/json and Go rune conversion trusted; equalities computed structurally in the harness', ref='5 C14'),
+    'C15': dict(cat='model_checking', tech='TLA+ CLI.tla pipeline state machine: TLC exhaustive over the scenario space (M), every scenario concretised on corpus objects and executed with the real zlint binary built from /repo (G), observations validated by Trace_CLI (V)',
+                text='Format x channel x inputs (encoding, corruption, suffix) x selection x configuration x output mode scenarios are enumerated by TLC; for each the real binary is launched and its stdout/exit compared with the specification (printed results = library results with the same selection, summary counts = result counts, non-zero exit and no result object for undecodable input or unknown selectors).',
+                note='library result computed in-process by the driver; outputs compared as decoded JSON', ref='5 C15'),
+    'C16': dict(cat='model_checking', tech='TLA+ RSAKey.tla: exact arithmetic in TLC (bit length, divisors 2..751, Fermat search) for moduli < 2^31 exported as a plan, forged into real certificates and judged by the real lints; real-size classes by construction; validated by Trace_RSA',
+                text='Every arithmetic predicate of the key-quality lints is computed by TLC for each small modulus/exponent (every divisor 2..751, prime neighbours, Fermat rounds boundary) and compared with the lint statuses on forged certificates; real-size moduli are constructed per class with math/big and judged by class.',
+                note='exact below 2^31, by construction above; role/date gates belong to C04', ref='5 C16'),
+    'C17': dict(cat='model_checking', tech='TLA+ NameRules/Order plan (TLC enumerates sequences and permutations) + Process.tla memo keyed by the certificate modulo order; permuted SAN lists / extension lists of corpus and planted certificates validated by Trace_Process',
+                text='The memo key is the certificate modulo element order: every permutation (all up to 4 entries, else reversal/rotations/seeded) of SAN entries and of extension lists, plus vocabulary names planted in both orders on templates, must reproduce the status vector of the whole registry.',
+                note='statuses only; extension permutation only without duplicated extensions', ref='5 C17'),
+    'C18': dict(cat='model_checking', tech='TLA+ TLD.tla over the delegation table extracted from the AST of gtld_map.go: table well-formedness exhaustive (TLC), every entry probed at its boundary instants in 7 name shapes on util functions and the TLD lint, validated by Trace_TLD',
+                text='ValidAt/Ever are specified over the extracted table; TLC checks the table invariants for every entry and judges every (name, instant) probe of HasValidTLD / IsInTLDMap and every forged-certificate run of e_dnsname_not_valid_tld.',
+                note='names built from components so the right-most label is known by construction; civil dates at 00:00 UTC', ref='5 C18'),
+    'C19': dict(cat='model_checking', tech='TLA+ IPReserved.tla (block list of the property, laws L1-L4) checked by TLC; addresses, prefix chains a/0..a/max and forged-certificate lint runs validated by Trace_IP',
+                text='The laws (mapped = 4-byte form, single-address network = address test, network containing a reserved address intersects, super-network of an intersecting network intersects) are a linear state machine over prefix chains; every named block is probed at and around its edges, plus public and seeded random addresses, on util functions and the four reserved-IP lints.',
+                note='block lists are those of the property statement; Go net mask arithmetic trusted', ref='5 C19'),
+    'C20': dict(cat='model_checking', tech='TLA+ Pairs.tla table of duplicated rules with relations (SameStatus / FindingIff / ErrorImpliesFinding) checked by TLC; both members of every pair run on mirrored content (SAN<->IAN, subject<->issuer, planted vocabulary, validity and length boundaries), validated by Trace_Pairs',
+                text='The pair table is the specification; same content is planted by construction and every certificate on which both members ran is judged against the pair relation.',
+                note='"both ran" = both results are pass or a finding', ref='5 C20'),
 }
 
 
@@ -47,7 +74,7 @@ def main():
                            evidence_file='/verif/evidence/%s.json' % pid, replay_cmd_template='bin/check %s --replay {path}' % pid,
                            engine='tla', level_claimed=dict(category=c['cat'], text=c['text'], design_ref='DESIGN.md section ' + c['ref']),
                            level_note=c['note'], technique=c['tech']))
-    na = [dict(property_id=p, reason='check not built yet (in progress, see DESIGN.md section 11)') for p in ALL if p not in CHECKS]
+    na = [dict(property_id=p, reason='check under construction (Concurrent.tla + gated/race drivers), see DESIGN.md section 5 C10') for p in ALL if p not in CHECKS]
     m = dict(version=1, setup_cmd='bash /verif/bin/setup',
              hooks=dict(guard='verif', enable='go build -tags verif (harness module /verif/harness, replace => /repo/v3)',
                         baseline_off_cmd='bash /verif/bin/baseline_off', source_commits=HOOK_COMMITS, add_only=True),
@@ -57,6 +84,6 @@ def main():
     json.dump(m, open('/verif/MANIFEST.json', 'w'), indent=1)
 
 
-HOOK_COMMITS = []
+HOOK_COMMITS = ['11808e9a6720f541fc3f785ff96b3c9b460a4b58']
 if __name__ == '__main__':
     main()
